@@ -265,7 +265,16 @@ class Equals(ParametrizedDependentType):
     keyable_type = True
 
     def default_bound(self, *parameters):
-        return type(parameters[0])
+        types = []
+        for p in parameters:
+            if type(p) not in types:
+                types.append(type(p))
+        if len(types) == 1:
+            return types[0]
+        else:
+            from .types import Union
+
+            return Union[tuple(types)]
 
     def check(self, value):
         return value in self.parameters
@@ -275,7 +284,7 @@ class Equals(ParametrizedDependentType):
         return "{arg}"
 
     def get_keys(self):
-        return [self.parameter]
+        return list(self.parameters)
 
     def codegen(self):
         if len(self.parameters) == 1:
